@@ -5,6 +5,7 @@ import (
 	"go/constant"
 	"go/token"
 	"go/types"
+	"regexp"
 	"sort"
 	"strings"
 
@@ -491,6 +492,7 @@ func c15Sym(r *core.Run, p *core.Program) {
 		}
 	}
 	r.Check(len(missW) == 0 && len(missT) == 0, rule, "templates/p2pkh-p2sh", p.Pos(os.Pos()), "P2PKH 76 a9 14 <20> 88 ac and P2SH a9 14 <20> 87 on both sides", fmt.Sprintf("script frames differ: not written by OutScript %v, not tested by NewAddrFromPkScript %v", missW, missT))
+	c15PayloadTiles(r, p, rule)
 	// witness: res[0] = OP_0 for version 0, version-1+OP_1 otherwise; res[1] = len(program)
 	v0, vn, ln := false, false, false
 	an.Instrs(os, func(i ssa.Instruction) {
@@ -625,4 +627,74 @@ func c15SymbolRange(r *core.Run, p *core.Program) {
 	})
 	sort.Strings(bad)
 	r.Check(len(bad) == 0 && n >= 2, rule, "decode/symbol-range-before-use", p.Pos(fn.Pos()), fmt.Sprintf("%d uses of a reverse-table value, each after the range test", n), strings.Join(bad, "; "))
+}
+
+// c15PayloadTiles: in the script-to-address direction each recognised template is a fixed frame around one
+// payload (hash or public key).  On the path to every constructor call the script length is fixed by a test
+// "len(scr) == N", and the bytes compared with constants together with the payload range scr[lo:hi] tile
+// the N bytes exactly: no tested byte lies inside the payload and no byte is left out.  (A payload range
+// shifted by one still has the right length and stays inside the script.)
+func c15PayloadTiles(r *core.Run, p *core.Program, rule string) {
+	fn := p.Func("lib/btc.NewAddrFromPkScript")
+	if fn == nil {
+		r.Fail(rule, "templates/payload-tiles-frame", "-", "NewAddrFromPkScript not found")
+		return
+	}
+	reLen := regexp.MustCompile(`^\(builtin\.len\(param#0\) == (\d+)\)$`)
+	reByte := regexp.MustCompile(`^\(param#0\[(\d+)\] == \d+\)$`)
+	n := 0
+	var bad []string
+	for _, c := range an.CallsTo(fn, false, "lib/btc.NewAddrFromHash160", "lib/btc.NewAddrFromPubkey") {
+		rng, base, ok := c16ConstSlice(c.Common().Args[0])
+		if !ok || base != ssa.Value(fn.Params[0]) {
+			continue
+		}
+		n++
+		pos := p.Pos(an.InstrPos(c.(ssa.Instruction)))
+		var lo, hi int
+		fmt.Sscanf(rng, "%d:%d", &lo, &hi)
+		size := -1
+		tested := map[int]bool{}
+		for _, dc := range an.DomConds(c.(ssa.Instruction).Block()) {
+			if !dc.True {
+				continue
+			}
+			if m := reLen.FindStringSubmatch(dc.Cond); m != nil {
+				fmt.Sscanf(m[1], "%d", &size)
+			}
+			if m := reByte.FindStringSubmatch(dc.Cond); m != nil {
+				var i int
+				fmt.Sscanf(m[1], "%d", &i)
+				tested[i] = true
+			}
+		}
+		if size < 0 {
+			bad = append(bad, "the script length is not fixed on the way to "+pos)
+			continue
+		}
+		var holes, overl []string
+		for i := 0; i < size; i++ {
+			in := i >= lo && i < hi
+			if in && tested[i] {
+				overl = append(overl, fmt.Sprint(i))
+			}
+			if !in && !tested[i] {
+				holes = append(holes, fmt.Sprint(i))
+			}
+		}
+		if hi > size || len(holes) > 0 || len(overl) > 0 {
+			bad = append(bad, fmt.Sprintf("%d-byte template at %s: payload [%d:%d] with frame bytes tested at %s leaves byte(s) [%s] unaccounted and covers tested byte(s) [%s]", size, pos, lo, hi, c15Ints(tested), strings.Join(holes, ","), strings.Join(overl, ",")))
+		}
+	}
+	sort.Strings(bad)
+	r.Check(len(bad) == 0 && n >= 4, rule, "templates/payload-tiles-frame", p.Pos(fn.Pos()), fmt.Sprintf("%d templates: tested frame bytes and payload range tile the script exactly", n), strings.Join(bad, "; "))
+}
+
+func c15Ints(m map[int]bool) string {
+	var ks []int
+	for k := range m {
+		ks = append(ks, k)
+	}
+	sort.Ints(ks)
+	return strings.Trim(strings.Join(strings.Fields(fmt.Sprint(ks)), ","), "[]")
 }
